@@ -44,6 +44,12 @@ type DFSTask struct {
 	// visited set of a worker process to one search (scenario x bound).
 	HB    bool   `json:"hb,omitempty"`
 	RunID string `json:"run_id,omitempty"`
+	// Weighted: a departure from the default scheduler costs 2 when the running goroutine could
+	// have continued (a preemption) or when it picks another ready select case, and 1 when the
+	// running goroutine was blocked anyway (choosing who runs next); Budget is in these units.
+	// Budget 2k therefore contains every schedule of the plain bound k and, in addition, those
+	// with fewer preemptions and more reorderings of who wakes up first.
+	Weighted bool `json:"weighted,omitempty"`
 }
 
 // DFSViolation is one failing schedule.
@@ -79,7 +85,21 @@ type dfsState struct {
 	deadline time.Time
 	maxExecs int
 	hb       bool
+	weighted bool
 	traces   map[uint64]bool
+}
+
+func (d *dfsState) cost(p *vsched.ChoicePoint) int {
+	switch {
+	case d.preempt:
+		return p.Cost
+	case d.weighted:
+		if p.CurEnabled || p.SelCase {
+			return 2
+		}
+		return 1
+	}
+	return 1
 }
 
 // visited set of this worker process for the current search (DFSTask.RunID)
@@ -214,10 +234,7 @@ func (d *dfsState) explore(prefix []int, budget int) {
 	}
 	for i := len(prefix); i < len(x.Points); i++ {
 		p := x.Points[i]
-		cost := 1
-		if d.preempt {
-			cost = p.Cost
-		}
+		cost := d.cost(&p)
 		if cost > budget {
 			continue
 		}
@@ -234,7 +251,7 @@ func (d *dfsState) explore(prefix []int, budget int) {
 // RunDFSTask is the worker side of the schedule search.
 func RunDFSTask(t *DFSTask, run RunFunc) *DFSResult {
 	res := &DFSResult{Outcomes: map[string]int{}}
-	d := &dfsState{run: run, res: res, hists: map[uint64]bool{}, maxExecs: t.MaxExecs, preempt: t.Preempt, hb: t.HB, traces: map[uint64]bool{}}
+	d := &dfsState{run: run, res: res, hists: map[uint64]bool{}, maxExecs: t.MaxExecs, preempt: t.Preempt, hb: t.HB, weighted: t.Weighted, traces: map[uint64]bool{}}
 	if t.Deadline > 0 {
 		d.deadline = time.Unix(t.Deadline, 0)
 	}
@@ -253,16 +270,13 @@ func RunDFSTask(t *DFSTask, run RunFunc) *DFSResult {
 			}
 			for i := len(t.Prefix); i < len(x.Points); i++ {
 				p := x.Points[i]
-				cost := 1
-				if t.Preempt {
-					cost = p.Cost
-				}
+				cost := d.cost(&p)
 				if cost > t.Budget {
 					continue
 				}
 				for alt := 1; alt < p.N; alt++ {
 					child := append(append(make([]int, 0, i+1), base[:i]...), alt)
-					res.Children = append(res.Children, DFSTask{Scenario: t.Scenario, Params: t.Params, Prefix: child, Budget: t.Budget - cost, Deadline: t.Deadline, MaxExecs: t.MaxExecs, Preempt: t.Preempt, HB: t.HB, RunID: t.RunID})
+					res.Children = append(res.Children, DFSTask{Scenario: t.Scenario, Params: t.Params, Prefix: child, Budget: t.Budget - cost, Deadline: t.Deadline, MaxExecs: t.MaxExecs, Preempt: t.Preempt, HB: t.HB, RunID: t.RunID, Weighted: t.Weighted})
 				}
 			}
 		}
@@ -288,6 +302,9 @@ func RunDFSTask(t *DFSTask, run RunFunc) *DFSResult {
 // UseHB switches happens-before state caching on for the searches started by RunDFS; set by
 // the drivers whose harness code reports its own shared state as events (checks/conc.go).
 var UseHB bool
+
+// UseWeighted selects the weighted cost model (DFSTask.Weighted) for the searches started by RunDFS.
+var UseWeighted bool
 
 // DFSStats aggregates a whole search.
 type DFSStats struct {
@@ -340,7 +357,7 @@ func RunDFS(c *Ctx, pool *Pool, scenario string, params any, bound int, maxExecs
 		}
 	}
 	level := []DFSTask{{Scenario: scenario, Params: pj, Prefix: nil, Budget: bound, Deadline: deadline, MaxExecs: maxExecsPerTask, Expand: true, Preempt: len(preempt) > 0 && preempt[0],
-		HB: UseHB, RunID: fmt.Sprintf("%s/%d/%d", scenario, bound, time.Now().UnixNano())}}
+		HB: UseHB, Weighted: UseWeighted, RunID: fmt.Sprintf("%s/%d/%d", scenario, bound, time.Now().UnixNano())}}
 	// expand two levels (root, then its children) to get enough subtrees for 16 workers
 	for depth := 0; depth < 2 && len(level) > 0; depth++ {
 		var tasks [][]byte
